@@ -552,6 +552,13 @@ class StmtMixin:
                 if ex.locals.get(n) is UNBOUND:
                     ex.locals[n] = MAYBE
             exits = [ex]
+            # canary: the loop's exit state must admit a run that went through the body at least once (a contract that is only
+            # satisfiable for an empty iterable proves nothing about the body); skipped for iterables of concrete length
+            if not z3.is_int_value(z3.simplify(seq.len)) and not spec.get("may_be_empty_only") and not spec.get("no_exhaust") and self.depth == 0:
+                from .state import Obligation
+                self.obligations.append(Obligation(f"{self.top_func}:cover:{tag}:exit-after-at-least-one-iteration", "cover",
+                                                   list(ex.pc) + [it >= 1], z3.BoolVal(False), "",
+                                                   "the state after the loop is reachable with a non-empty iterable (must be SAT)", func=self.top_func))
         else:
             exits = []
             for s, c in self.ev(node.test, ex):
